@@ -11,4 +11,5 @@ print("|---|---|---|---|---|---|---|")
 for m in rows:
     conf = "yes" if m.get("confirmed") else ("pending" if "confirmed" not in m else "no")
     suite = (m.get("suite_with_change") or "").split(";")[1].strip() if m.get("suite_with_change") else ""
-    print(f"| {m.get('id')} | {m.get('property','')} | {m.get('change','')} | {m.get('needs','')} | {conf}{' (' + suite + ')' if suite else ''} | {m.get('caught_by','')} | {m.get('strengthened','')} |")
+    cell = lambda s: str(s).replace("|", "/").replace("\n", " ")
+    print(f"| {m.get('id')} | {m.get('property','')} | {cell(m.get('change',''))} | {cell(m.get('needs',''))} | {conf}{' (' + suite + ')' if suite else ''} | {cell(m.get('caught_by',''))} | {cell(m.get('strengthened',''))} |")
